@@ -4,7 +4,7 @@ import ast
 from sa.deps import Facts, base_name, names_in, pseudo
 from sa.loader import AnalysisError, FuncInfo, own_nodes
 from sa.model import fq, row_loops, rowloop_signature, u, where
-from sa.paths import BREAK, CONTINUE, FALL, RAISE, RETURN
+from sa.paths import BREAK, CONTINUE, FALL, RAISE, RETURN, path_nodes
 
 
 def transparent_loop(ctx, rule, fi, loop, var, effects=(), what=''):
@@ -31,6 +31,12 @@ def transparent_loop(ctx, rule, fi, loop, var, effects=(), what=''):
                    and any(isinstance(a, ast.Name) and a.id == var for a in c.args)]
             if len(eff) != 1:
                 problems.append('%d side-effect call(s) %s(%s) on this path' % (len(eff), '/'.join(effects), var))
+            elif s.yields:
+                # the row must be persisted *before* it is handed downstream: a later step may modify it in place
+                order = [n for n in path_nodes(s.path, into_loops=True) if n is eff[0] or n is s.yields[0][1]]
+                if order and order[0] is not eff[0]:
+                    problems.append('the row is yielded before it is written: a downstream step that edits rows in place '
+                                    'changes what gets persisted')
         if problems:
             ok_all = False
             run.fail(rule, where(ctx.repo, loop), fi.qualname, '%s: %s' % (what or u(loop.iter), g),
